@@ -513,6 +513,15 @@ def header_line_spellings(ctx, report, rule='C18.R6'):
         return
     name = 'Strict-Transport-Security'
     spellings = [(name + ':' + ws + 'max-age=1') for ws in ('', ' ', '   ')] + [name.lower() + ': max-age=1', name.upper() + ':max-age=1']
+    # RFC 9110 5.5 / 5.6.3: field-line = field-name ":" OWS field-value OWS with OWS = *( SP / HTAB ), on both sides of the value
+    spellings += [name + ':\tmax-age=1', name + ': \t max-age=1', name + ': max-age=1 ', name + ': max-age=1\t ']
+
+    def kind(line):
+        if '\t' in line:
+            return 'tab'
+        if line.endswith(' '):
+            return 'trailing-space'
+        return 'no-space' if ':max' in line else ('spaces' if ':  ' in line else 'case')
 
     def run(c, line):
         f = c.resolve('_parse')
@@ -555,11 +564,11 @@ def header_line_spellings(ctx, report, rule='C18.R6'):
                 try:
                     value, consumed = run(c, line)
                 except Raised as e:
-                    report.add(rule, '%s@spelling[%s]' % (c.resolve('_parse').construct, 'no-space' if ':max' in line else ('spaces' if ':  ' in line else 'case')),
+                    report.add(rule, '%s@spelling[%s]' % (c.resolve('_parse').construct, kind(line)),
                                'the line %r is refused (%s): %s parser and the other header line parser disagree on an equivalent spelling' % (line, e.what[:40], c.name))
                     continue
                 if value != 'max-age=1' or consumed != len(line):
-                    report.add(rule, '%s@spelling[%s]' % (c.resolve('_parse').construct, 'no-space' if ':max' in line else ('spaces' if ':  ' in line else 'case')),
+                    report.add(rule, '%s@spelling[%s]' % (c.resolve('_parse').construct, kind(line)),
                                'the line %r yields the value %r and consumes %s of %d bytes; expected the value %r' % (line, value, consumed, len(line), 'max-age=1'))
     except Unsupported as e:
         report.add(rule, parsed.resolve('_parse').construct + '@tabulation', 'the header line parsers left the subset the tabulation understands: %s' % e)
